@@ -235,3 +235,30 @@ def representatives(pclass, dclass):
     if dclass == "evalError" and pclass == "reportError":
         profs = []      # an evaluation error is a property of the profile here: no representative for this pair
     return profs, docs
+
+
+# YAML is a graph language: anchors, aliases (also to an enclosing node), merge keys, tags, several documents.  What each
+# of these means to the profile language is the implementation's choice (today an alias is "not a map"): what must not
+# happen is a panic, a crash of the process or a call that does not return
+_YG_HEAD = "profile: x\nprefixes:\n  ex: http://example.org/ns#\nviolation: [v]\nvalidations:\n"
+YAML_GRAPH_PROFILES = [_YG_HEAD + b for b in (
+    "  v: &r\n    targetClass: ex.T\n    message: m\n    not: *r\n",
+    "  v: &r\n    targetClass: ex.T\n    message: m\n    and:\n      - *r\n      - *r\n",
+    "  v: &r\n    targetClass: ex.T\n    message: m\n    or: [*r]\n",
+    "  v: &r\n    targetClass: ex.T\n    message: m\n    if: *r\n    then: *r\n    else: *r\n",
+    "  v: &r\n    targetClass: ex.T\n    message: m\n    propertyConstraints:\n      ex.child:\n        nested: *r\n",
+    "  v: &r\n    targetClass: ex.T\n    message: m\n    propertyConstraints:\n      ex.child:\n        atLeast:\n          count: 1\n          validation: *r\n",
+    "  v:\n    targetClass: ex.T\n    message: m\n    propertyConstraints: &pc\n      ex.child:\n        nested:\n          propertyConstraints: *pc\n",
+    "  v:\n    targetClass: ex.T\n    message: m\n    not: &n\n      not: *n\n",
+    "  v: &r\n    targetClass: ex.T\n    message: m\n    propertyConstraints:\n      ex.p:\n        minCount: 1\n  w: *r\n",
+    "  v:\n    targetClass: ex.T\n    message: m\n    propertyConstraints:\n      ex.p: &c\n        minCount: 1\n      ex.q: *c\n",
+    "  v:\n    <<: &base\n      targetClass: ex.T\n      message: m\n    propertyConstraints:\n      ex.p:\n        minCount: 1\n  w:\n    <<: *base\n    propertyConstraints:\n      ex.q:\n        minCount: 1\n",
+    "  v:\n    targetClass: !!str ex.T\n    message: !!binary aGVsbG8=\n    propertyConstraints:\n      ex.p:\n        minCount: !!int \"1\"\n",
+    "  v:\n    targetClass: ex.T\n    message: m\n    propertyConstraints:\n      ex.p:\n        minCount: 1\n---\nprofile: y\n",
+    "  v:\n    targetClass: ex.T\n    message: m\n    propertyConstraints:\n      ex.p:\n        in: &a [&b [&c [x, x], *c], *b]\n",
+    "  v:\n    targetClass: ex.T\n    message: &m m\n    propertyConstraints:\n      ? *m\n      : minCount: 1\n",
+)] + [
+    "profile: &p x\nprefixes: &px\n  ex: http://example.org/ns#\n  ey: *p\nviolation: &vs [v]\nwarning: *vs\nvalidations:\n  v:\n    targetClass: ex.T\n    message: m\n    propertyConstraints:\n      ex.p:\n        minCount: 1\n",
+    "&root\nprofile: x\nvalidations: *root\n",
+    "&root\nprofile: x\nviolation: [v]\nvalidations:\n  v: *root\n",
+]
